@@ -21,13 +21,12 @@ def showLit (n : Int) : String :=
   if n == -9223372036854775808 then "(-9223372036854775807 - 1)"
   else if n < 0 then "-" ++ toString (-n) else toString n
 
-/-- binding strength used by the printer (the specification's table; relational and equality share a
-    level here so that mixed chains are always parenthesised) -/
+/-- binding strength used by the printer: the specification's table -/
 def BinOp.prec : BinOp → Nat
   | .mul => 13 | .div => 13 | .mod => 13
   | .add => 12 | .sub => 12
   | .shl => 11 | .shr => 11
-  | .lt => 10 | .le => 10 | .gt => 10 | .ge => 10 | .eq => 10 | .ne => 10
+  | .lt => 10 | .le => 10 | .gt => 10 | .ge => 10 | .eq => 9 | .ne => 9
   | .band => 8 | .bxor => 7 | .bor => 6 | .land => 5 | .lor => 4
 
 def wrapIf (b : Bool) (s : String) : String := if b then "(" ++ s ++ ")" else s
@@ -43,8 +42,7 @@ partial def showP (ctx : Nat) (e : Expr) : String :=
   | .fldIdx x f is => x ++ "." ++ f ++ String.join (is.map fun i => "[" ++ showP 0 i ++ "]")
   | .bin op a b =>
       let p := op.prec
-      let l := if p == 10 then 11 else p
-      wrapIf (ctx > p) (showP l a ++ " " ++ op.sym ++ " " ++ showP (p + 1) b)
+      wrapIf (ctx > p) (showP p a ++ " " ++ op.sym ++ " " ++ showP (p + 1) b)
   | .un op a => wrapIf (ctx > 14) (op.sym ++ showP 15 a)
   | .tern c a b => wrapIf (ctx > 3) (showP 4 c ++ " ? " ++ showP 4 a ++ " : " ++ showP 4 b)
   | .call f args => f ++ "(" ++ String.intercalate ", " (args.map (showP 0)) ++ ")"
